@@ -465,3 +465,36 @@ package frugal
 //@   ensures len(result) == len(f.middleware) && fresh(result)
 //@   ensures forall(i, 0, len(result), result[i] == f.middleware[i])
 //@   modifies alloc
+
+// Invoke calls the composed handler exactly once with the proxied struct, the proxied method and the
+// caller's arguments, and returns what it returned.
+//@ func lib.InvocationHandler
+//@   functype
+//@   modifies *
+
+//@ func lib.Method.Invoke
+//@   ensures ncalls("lib.InvocationHandler") == 1
+//@   ensures callarg("lib.InvocationHandler", 0, 0) == old(m.handler)
+//@   ensures result == callret("lib.InvocationHandler", 0, 0)
+//@   modifies *
+
+// A Method starts with the composition of the base handler and the given middleware list.
+//@ func lib.NewMethod
+//@   ensures ncalls("lib.composeMiddleware") == 1
+//@   ensures result.handler == callret("lib.composeMiddleware", 0, 0)
+//@   modifies *
+
+// A processor hands a new middleware to every registered function.
+//@ func lib.FBaseProcessor.AddMiddleware
+//@   modifies *
+
+//@ func lib.FBaseProcessorFunction.InvokeMethod
+//@   ensures ncalls("lib.Method.Invoke") == 1
+//@   modifies *
+
+// The base handler calls the wrapped function exactly once.
+//@ func lib.newInvocationHandler$1
+//@   ensures ncalls("reflect.Value.Call") == 1
+//@   modifies *
+//@   loop 0 invariant len(argValues) == len(args) && args == args0 && 0 - 1 <= rangeindex && rangeindex <= len(args)
+//@   loop 1 invariant len(results) == len(returnValues) && 0 - 1 <= rangeindex && rangeindex <= len(returnValues)
